@@ -325,6 +325,7 @@ def showCall : SCall → String
   | .pipe => "pipe"
   | .getfd fd => s!"getfd{fd}"
   | .setfd fd fl => s!"setfd{fd}.{fl}"
+  | .dupfd fd => s!"dupfd{fd}"
   | .fork => "fork"
   | .close fd => s!"close{fd}"
   | .readStatus fd => s!"read{fd}"
